@@ -90,6 +90,23 @@ def main(tier, seed, replay=None):
             r = rng.random()
             if r < 0.12:
                 c = EC.base_case(rng)
+                if rng.random() < 0.7:
+                    # a property shape with targets of its own whose focus nodes SHARE a value node that fails sh:node: each focus node's
+                    # result carries the nested details, whichever of them the set of focus nodes yields first
+                    iris_ = [n_ for n_ in c["nodes"] if isinstance(n_, URIRef)]
+                    if len(iris_) >= 3:
+                        fa_, fb_, v_ = rng.sample(iris_, 3)
+                        inner_ = S.new_shape(EX["SVN%d" % j], None)
+                        inner_["comps"].append(("property", [BNode("svq%d" % j)]))
+                        innerp_ = S.new_shape(BNode("svq%d" % j), ("pred", str(EX.neverthere)))
+                        innerp_["comps"].append(("mincount", 1))
+                        ps_ = S.new_shape(EX["SVP%d" % j], ("pred", str(EX.p)))
+                        ps_["targets"]["nodes"] = [fa_, fb_]
+                        ps_["comps"].append(("node", [inner_["id"]]))
+                        c["shapes"] += [ps_, inner_, innerp_]
+                        c["data"].add((fa_, EX.p, v_))
+                        c["data"].add((fb_, EX.p, v_))
+                        c["sg"] = S.shapes_to_rdf(c["shapes"])
                 opts, api, fam = rng.choice([{}, {}, {"abort_on_first": False, "allow_warnings": True}]), "validate", "nested shapes"
             elif r < 0.3:
                 # components that iterate over a SET of shapes (qualified siblings, shared references): a last-wins or
